@@ -4,7 +4,7 @@ from __future__ import annotations
 from typing import Any
 
 from ..catalog import CATALOG
-from ..common import UnitResult, case_rng, chunks, show
+from ..common import UnitResult, case_rng, chunks
 from . import _c01_pipeline as P
 
 ID = "C02"
